@@ -521,37 +521,42 @@ Definition deps_check (o : options) (deps : list string) (result : sdata) (unpro
   | _ => handle_error o (parse_err KDependencies) false
   end.
 
-(* data_first_parse main loop (436-478) *)
+(* data_first_parse main loop; raw = the values given so far, by field name *)
 Fixpoint dfs_loop (C : cdecl) (o : options) (depth : Z) (data : sdata)
-         (result addition : sdata) (deps : list string) : M (sdata * sdata * list string) :=
+         (result raw addition : sdata) (deps : list string) : M (sdata * sdata * list string) :=
   match data with
   | [] => ret (result, addition, deps)
   | (key, value) :: rest =>
       match get_field C key with
       | None =>
           do a <- parse_addition C o key value;
-          dfs_loop C o depth rest result
+          dfs_loop C o depth rest result raw
                    (match a with Some x => sdict_set addition key x | None => addition end) deps
       | Some f =>
           let name := f_name f in
           if is_no_input f o then
             dfs_loop C o depth rest
                      (match get_default f o with Some d => sdict_set result name d | None => result end)
-                     addition deps
-          else if negb (o_ignore_alias_conflicts o) && has_key name result then
-            match assoc name result with
+                     raw addition deps
+          else
+            let seen := if o_ignore_alias_conflicts o then None
+                        else match assoc name raw with
+                             | Some prev => Some prev
+                             | None => assoc name result
+                             end in
+            match seen with
             | Some prev =>
                 do _ <- (if negb (py_eq prev value)
                          then handle_error o (parse_err_at KAliasConflict (PStr name)) false else ret tt);
-                dfs_loop C o depth rest result addition deps
-            | None => dfs_loop C o depth rest result addition deps
-            end
-          else
-            do p <- parse_value o depth f value;
-            match p with
-            | None => dfs_loop C o depth rest result addition deps
-            | Some r => dfs_loop C o depth rest (sdict_set result name r) addition
-                                 (deps ++ f_dependencies f)
+                dfs_loop C o depth rest result raw addition deps
+            | None =>
+                let raw' := sdict_set raw name value in
+                do p <- parse_value o depth f value;
+                match p with
+                | None => dfs_loop C o depth rest result raw' addition deps
+                | Some r => dfs_loop C o depth rest (sdict_set result name r) raw' addition
+                                     (deps ++ f_dependencies f)
+                end
             end
       end
   end.
@@ -559,22 +564,39 @@ Fixpoint dfs_loop (C : cdecl) (o : options) (depth : Z) (data : sdata)
 Definition sdict_update (a b : sdata) : sdata := fold_left (fun acc kv => sdict_set acc (fst kv) (snd kv)) b a.
 
 Definition data_first_parse (C : cdecl) (o : options) (depth : Z) (data : sdata) : M sdata :=
-  do r <- dfs_loop C o depth data [] [] [];
+  do r <- dfs_loop C o depth data [] [] [] [];
   let '(result, addition, deps) := r in
-  do r2 <- (if o_ignore_required o then ret (result, [])
-            else dfs_missing o (c_fields C) result []);
+  do r2 <- dfs_missing o (c_fields C) result [];
   let '(result2, unprov) := r2 in
   do _ <- (match deps with [] => ret tt | _ => deps_check o deps result2 unprov end);
   ret (sdict_update result2 addition).
 
-(* field_first_parse (512-619) *)
-Definition ffs_prepare (C : cdecl) (data : sdata) : sdata :=
+(* field_first_parse: keys of case-insensitive names folded to lower case; the same name given twice with
+   different values is an alias conflict and the first value is kept *)
+Fixpoint ffs_fold (C : cdecl) (o : options) (data acc : sdata) : M sdata :=
+  match data with
+  | [] => ret acc
+  | (k, v) :: rest =>
+      let lk := str_lower k in
+      if str_in lk (c_ci_names C) then
+        match assoc lk acc with
+        | Some prev =>
+            if negb (o_ignore_alias_conflicts o) && negb (py_eq prev v) then
+              do _ <- (match get_field C lk with
+                       | Some f => if is_no_input f o then ret tt
+                                   else handle_error o (parse_err_at KAliasConflict (PStr (f_name f))) false
+                       | None => ret tt
+                       end);
+              ffs_fold C o rest acc
+            else ffs_fold C o rest (sdict_set acc lk v)
+        | None => ffs_fold C o rest (sdict_set acc lk v)
+        end
+      else ffs_fold C o rest (sdict_set acc k v)
+  end.
+Definition ffs_prepare (C : cdecl) (o : options) (data : sdata) : M sdata :=
   match c_ci_names C with
-  | [] => data
-  | _ => fold_left (fun acc kv =>
-                      let k := fst kv in
-                      if str_in (str_lower k) (c_ci_names C) then sdict_set acc (str_lower k) (snd kv)
-                      else sdict_set acc k (snd kv)) data []
+  | [] => ret data
+  | _ => ffs_fold C o data []
   end.
 
 (* value lookup over field.all_aliases (538-553): result value (None = unprovided), conflict flag *)
@@ -602,7 +624,6 @@ Fixpoint ffs_loop (o : options) (depth : Z) (data : sdata) (fields : list (strin
   | (_, f) :: rest =>
       let name := f_name f in
       let '(value, conflict) := ffs_lookup (o_ignore_alias_conflicts o) (f_all_aliases f) data None in
-      do _ <- (if conflict then handle_error o (parse_err_at KAliasConflict (PStr name)) false else ret tt);
       match value with
       | None =>
           let unprov' := name :: unprov in
@@ -620,6 +641,7 @@ Fixpoint ffs_loop (o : options) (depth : Z) (data : sdata) (fields : list (strin
                      (match get_default f o with Some d => sdict_set result name d | None => result end)
                      used' unprov deps
           else
+            do _ <- (if conflict then handle_error o (parse_err_at KAliasConflict (PStr name)) false else ret tt);
             do p <- parse_value o depth f v;
             match p with
             | None => ffs_loop o depth data rest result used' unprov deps
@@ -639,7 +661,7 @@ Fixpoint ffs_addition (C : cdecl) (o : options) (data : sdata) (used : list stri
   end.
 
 Definition field_first_parse (C : cdecl) (o : options) (depth : Z) (data0 : sdata) : M sdata :=
-  let data := ffs_prepare C data0 in
+  do data <- ffs_prepare C o data0;
   do r <- ffs_loop o depth data (c_fields C) [] [] [] [];
   let '(result, used, unprov, deps) := r in
   do _ <- (match deps with [] => ret tt | _ => deps_check o deps result unprov end);
